@@ -4,7 +4,10 @@ package main
 //
 // ops
 //   timeout : {proto, connect:[hex], grpc:[hex]}  -> extractTimeout on a header map
-//   checks  : {reqs:[request]}                   -> a fresh handler instance serving the requests in order
+//   checks  : {reqs:[request], stderr}           -> a fresh handler instance serving the requests in order;
+//                                                    stderr=true: the checks print through internal.NewPrinter
+//                                                    (as in run()) and every line of that stream is attributed
+//                                                    by the real runTestCasesForServer (c12Attribute)
 //   matrix  : {e:[7], a:[7], v:[3], name}         -> the request a conformant client sends for actual
 //                                                    aspects a (variant v) carrying the runner's
 //                                                    expectation headers for e, served by a fresh handler
@@ -27,7 +30,9 @@ import (
 	"sort"
 	"strconv"
 	"strings"
+	"sync"
 
+	cc "connectrpc.com/conformance/internal/app/connectconformance"
 	rs "connectrpc.com/conformance/internal/app/referenceserver"
 	"connectrpc.com/conformance/internal/verifharness/gen"
 )
@@ -39,11 +44,11 @@ func init() {
 	})
 	gen.RegisterOp("c12", "checks", func(c *gen.Ctx, raw json.RawMessage) any {
 		in := gen.Into[c12ChecksIn](raw)
-		return c12Serve(c, in.Reqs)
+		return c12Serve(c, in.Reqs, in.Stderr)
 	})
 	gen.RegisterOp("c12", "matrix", func(c *gen.Ctx, raw json.RawMessage) any {
 		in := gen.Into[c12MatrixIn](raw)
-		return c12Serve(c, []c12Req{c12Render(in)})
+		return c12Serve(c, []c12Req{c12Render(in)}, false)
 	})
 	gen.RegisterOp("c12", "render", func(c *gen.Ctx, raw json.RawMessage) any {
 		return c12Render(gen.Into[c12MatrixIn](raw))
@@ -193,7 +198,8 @@ type c12Req struct {
 }
 
 type c12ChecksIn struct {
-	Reqs []c12Req `json:"reqs"`
+	Reqs   []c12Req `json:"reqs"`
+	Stderr bool     `json:"stderr,omitempty"`
 }
 
 type c12MatrixIn struct {
@@ -211,6 +217,85 @@ type c12Obs struct {
 	Seen   [][2]string `json:"seen"`
 	Status int         `json:"status"`
 	Error  bool        `json:"error"`
+	Lines  [][3]string `json:"lines"` // stderr mode: (line as written, record | forward | skip | hang, test name it was recorded for)
+}
+
+// ---------------------------------------------------------------- the stderr stream and its reader
+
+// c12Decoy is a test case of the same batch that the request at hand is not about.
+const c12Decoy = "C12/another case of the batch"
+
+// c12Batch: the names of the test cases of a batch (what runTestCasesForServer is given),
+// without duplicates, plus the decoy.
+func c12Batch(names ...string) []string {
+	out := []string{}
+	seen := map[string]bool{"": true}
+	for _, n := range append(names, c12Decoy) {
+		if !seen[n] {
+			seen[n] = true
+			out = append(out, n)
+		}
+	}
+	return out
+}
+
+var c12AttrMemo sync.Map // batch + line -> [3]string
+
+// c12Attribute hands one line of a reference server's stderr stream to the REAL reader of that
+// stream: runTestCasesForServer (server_runner.go) run by the C11 wrapper on a scripted server
+// process of a batch with the given test names whose stderr is that line. Result: the line was
+// recorded as feedback for test case `to` with message msg (results.recordSideband), forwarded
+// to the user as noise, or skipped.
+func c12Attribute(batch []string, line string) (kind, to, msg string) {
+	key := strings.Join(batch, "\x00") + "\x00\x00" + line
+	if v, ok := c12AttrMemo.Load(key); ok {
+		a := v.([3]string)
+		return a[0], a[1], a[2]
+	}
+	cases := make([]cc.VerifC11Case, len(batch))
+	for i := range cases {
+		cases[i] = cc.VerifC11Case{K: "pass"}
+	}
+	obs := cc.VerifC11Run(cc.VerifC11Spec{Names: batch, Cases: cases, IsRef: true, Start: "ok", Write: "ok", Close: "ok",
+		Resp: "ok", Dies: -1, RespLen: cc.VerifC11RespLen(), Stderr: line + "\n"})
+	switch {
+	case obs.Hang || !obs.StderrEOF:
+		kind = "hang"
+	case len(obs.Sideband) == 1 && len(obs.Forwarded) == 0:
+		kind, to, msg = "record", obs.Sideband[0][0], obs.Sideband[0][1]
+	case len(obs.Sideband) == 0 && len(obs.Forwarded) == 1:
+		kind = "forward"
+	case len(obs.Sideband) == 0 && len(obs.Forwarded) == 0:
+		kind = "skip"
+	default:
+		kind = "hang"
+	}
+	c12AttrMemo.Store(key, [3]string{kind, to, msg})
+	return kind, to, msg
+}
+
+// c12ReadStderr reads a stderr stream the way the runner does, line by line: the messages
+// (with the test case they were recorded for) for c12Classes, and the raw lines with what the
+// runner made of them.
+func c12ReadStderr(batch []string, stderr string) (lines []rs.VerifC12Line, raw [][3]string) {
+	raw = [][3]string{}
+	for _, l := range strings.Split(stderr, "\n") {
+		if l == "" {
+			continue
+		}
+		kind, to, msg := c12Attribute(batch, l)
+		raw = append(raw, [3]string{l, kind, to})
+		if kind == "record" {
+			// the runner trims the line; the message is classified with the white space it was written with
+			if full, ok := strings.CutPrefix(l, to+": "); ok && strings.TrimSpace(full) == msg {
+				msg = full
+			}
+			lines = append(lines, rs.VerifC12Line{Prefixed: true, Prefix: to, Msg: msg})
+		} else {
+			lines = append(lines, rs.VerifC12Line{Msg: l})
+		}
+	}
+	return lines, raw
 }
 
 func c12Build(r c12Req) *http.Request {
@@ -257,13 +342,27 @@ func c12Name(r c12Req) string {
 	return ""
 }
 
-func c12Serve(c *gen.Ctx, reqs []c12Req) []c12Obs {
+func c12Serve(c *gen.Ctx, reqs []c12Req, stderr bool) []c12Obs {
 	srv := rs.VerifC12NewServer()
+	var batch []string
+	if stderr {
+		srv = rs.VerifC12NewServerStderr()
+		var names []string
+		for _, r := range reqs {
+			names = append(names, c12Name(r))
+		}
+		batch = c12Batch(names...)
+	}
 	out := make([]c12Obs, 0, len(reqs))
 	for _, r := range reqs {
 		o := srv.Serve(c12Build(r))
 		var obs c12Obs
 		obs.Called = o.Called
+		obs.Lines = [][3]string{}
+		if stderr {
+			o.Lines, obs.Lines = c12ReadStderr(batch, o.Stderr)
+			c.E.Add("stderr-lines-read-by-the-real-runner", len(obs.Lines))
+		}
 		obs.Fb, obs.Named = c12Classes(c, o.Lines, c12Name(r))
 		if o.TimeoutMs != nil {
 			s := strconv.FormatInt(*o.TimeoutMs, 10)
@@ -628,9 +727,71 @@ func runC12(c *gen.Ctx) error {
 		c.Do("checks", c12ChecksIn{Reqs: reqs})
 		c.E.Count("kind:checks-sequence")
 	}
+	// (i.d) the same sequences with the printer of the real process (internal.NewPrinter around
+	// the stderr stream) and the stream read by the real runner; test case names are arbitrary
+	// strings (YAML): format verbs, colons, quotes, ...
+	nErr := 1500
+	if c.Thorough() {
+		nErr = 15000
+	}
+	for i := 0; i < nErr; i++ {
+		batchNames := []string{c12OddName(r, i), c12OddName(r, i+1), gen.Pick(r, names)}
+		n := r.Range(1, 4)
+		var reqs []c12Req
+		for k := 0; k < n; k++ {
+			a := c12Tuple(r.Intn(864))
+			e := a
+			switch r.Intn(4) {
+			case 0:
+				e = c12Tuple(r.Intn(864))
+			case 1, 2: // one deviating aspect
+				d := r.Intn(7)
+				e[d] = (a[d] + 1) % c12Dims[d]
+			}
+			name := batchNames[0]
+			if r.Intn(3) == 0 {
+				name = gen.Pick(r, batchNames)
+			}
+			req := c12Render(c12MatrixIn{E: e, A: a, V: [3]int{r.Intn(2), r.Intn(2), r.Intn(2)}, Name: name})
+			if r.Intn(3) == 0 {
+				c12Perturb(r, &req, badVals)
+			}
+			reqs = append(reqs, req)
+		}
+		c.Do("checks", c12ChecksIn{Reqs: reqs, Stderr: true})
+		c.E.Count("kind:checks-sequence-stderr")
+	}
 	// (iii) the real reference server as createServer builds it (c12real.go)
 	c12RealGen(c)
 	return nil
+}
+
+// c12OddNames: test case names are free-form YAML strings; these carry everything that means
+// something to a formatter, a line reader or a "name: message" splitter - except the separator
+// ": " itself, a line break, and white space at the ends, which the runner's reading of the
+// stream cannot survive by construction (checks/C12.json, assumptions).
+var c12OddNames = []string{
+	"Timeouts/HTTPVersion:1/deadline at 110%-of-timeout/unary", "100%", "%", "%%", "%%%", "50% off", "%d", "%s", "%v", "%q", "%x",
+	"%!", "%!d(MISSING)", "a %s b %d c", "%[1]s", "%[2]d", "%[9]*.[8]*f", "%*d", "%.3f", "%+v", "%#v", "%T", "%c", "%U", "%5%", "%-8s|",
+	"% d", "%w", "%!(EXTRA string=x)", "%!(NOVERB)", "100%/200%", "ends with %", "a:b", "a :b", "x::y", "trailing:", ":leading", "::",
+	"quote\"d", "back\\slash", "\\n", "{brace}", "$dollar ${x}", "`tick`", "<a&b>", "tab\tinside", "two  spaces", "é%ü", "名前/%s", "#1", "*", "?", "[x]",
+	"referenceserver", "referenceserver/x", "-", "0", strings.Repeat("long%", 40),
+}
+
+func c12OddName(r *gen.Rand, i int) string {
+	if i%3 == 0 {
+		return c12OddNames[(i/3)%len(c12OddNames)]
+	}
+	alpha := []string{"%", "%", "%", "s", "d", "v", "q", "x", "!", "(", ")", "[", "]", "1", "2", "9", "*", ".", "+", "-", "#", " ", ":", "/", "a", "Z", "_", "\\", "\"", "é"}
+	var sb strings.Builder
+	for k := r.Range(1, 14); k > 0; k-- {
+		sb.WriteString(gen.Pick(r, alpha))
+	}
+	name := strings.TrimSpace(strings.ReplaceAll(sb.String(), ": ", ":_"))
+	if name == "" {
+		name = "%"
+	}
+	return name
 }
 
 // c12Perturb applies zero or more deviations a client (or a broken runner) could produce.
